@@ -84,6 +84,23 @@ def run_pls(ck, rng, tier, which):
                 for j in range(M_.shape[1]):
                     if abs(M_[:, j].sum()) < 1e-5:
                         M_[:, j] += 3e-5
+        if c == 10:
+            # level scaling (option 5: division by the column mean) of descriptors of which one has a NEGATIVE mean
+            xs = 5
+            X[:, 0] = X[:, 0] - X[:, 0].mean() - rng.uniform(3.0, 9.0)
+            if m > 1:
+                X[:, m - 1] = X[:, m - 1] - X[:, m - 1].mean() + rng.uniform(2.0, 6.0)
+            ck.count("level scaling with a negative column mean")
+        if c == 12:
+            # strongly collinear descriptors (a shared profile plus small individual parts), centring only, as many latent variables
+            # as the rank, responses that depend on the small directions: later scores are orders of magnitude below the first
+            n, m, xs, noise = max(n, 12), max(m, 4), 0, 0.0
+            prof = np.array([rng.gauss(0, 1) for _ in range(n)])
+            X = np.column_stack([prof * rng.uniform(0.8, 1.2) + 1e-3 * np.array([rng.gauss(0, 1) for _ in range(n)]) for _ in range(m)])
+            Bc = np.array([[rng.gauss(0, 1) * 300.0 for _ in range(ny)] for _ in range(m)])
+            Y = X @ Bc
+            ck.count("collinear descriptors, responses on the small directions")
+        designed = c in (9, 17)
         designed = c in (9, 17)
         if designed:
             # integer-valued (designed) data with integer column means, centring only: centred cells that are EXACTLY 0, and a
@@ -110,6 +127,8 @@ def run_pls(ck, rng, tier, which):
         if corner == 6 and c < 16 and m == 7:
             nlv = rank
         if designed:
+            nlv = rank
+        if c == 12:
             nlv = rank
         Xnew = np.array([[rng.gauss(0, 1) * 2 + rng.uniform(-3, 3) for _ in range(m)] for _ in range(3)])
         lines.append("pls %s %s %s %d %d %d" % (vf.fmt_mat(X.tolist(), m), vf.fmt_mat(Y.tolist(), ny), vf.fmt_mat(Xnew.tolist(), m), xs, ys, nlv))
@@ -140,13 +159,16 @@ def run_pls(ck, rng, tier, which):
             continue
         T, U, P, W, Q = (np.array(o[k]) for k in ("T", "U", "P", "W", "Q"))
         b = np.array(o["b"])
-        if which == "C03" and o["ticks"] <= 3000 and n * m <= 300:
+        if o["ticks"] <= 3000 and n * m <= 300:
+          if which == "C03":
             checks.add(i, "fit", "pls_ok (%d)%%Z (%d)%%Z %d%%N %s %s %s %s %s %s %s %s %s %s %s %d%%N" % (
                 xs, ys, nlv, cm(X.tolist()), cm(Y.tolist()), cm(cols(o["T"])), cm(cols(o["U"])), cm(cols(o["P"])), cm(cols(o["W"])), cm(cols(o["Q"])),
                 cv(o["b"]), cv(o["xvarexp"]), cm(o["recalc"]), cm(o["resid"]), o["ticks"]))
-            checks.add(i, "predict_scores", "mchk (pls_predict_scores %s %s %s %s %d%%N %s) %s" % (
+          # the projection of unseen objects and the regression-coefficient form: part of C03 (re-projection) and of C04 (coefficients
+          # against the score-based predictor) alike
+          checks.add(i, "predict_scores", "mchk (pls_predict_scores %s %s %s %s %d%%N %s) %s" % (
                 cv(o["xavg"]), cv(o["xsc"]), cm(cols(o["W"])), cm(cols(o["P"])), nlv, cm(Xnew.tolist()), cm(cols(o["pred_new"]))))
-            if ny == 1:
+          if ny == 1:
                 checks.add(i, "betas", "vchk (pls_betas %s %s %s %d%%N) %s" % (cm(cols(o["W"])), cm(cols(o["P"])), cv(o["b"]), nlv, cv(o["betas%d" % nlv])))
         a = T.shape[1]
         E0 = c02.preprocess(X, xs)
